@@ -91,4 +91,9 @@ func main() {
 		run(g.OfferDeletionHistory())
 		r.Stat("class.offer-deletion", 1)
 	}
+	// one address of a MAC silent while the MAC stays active; purges at the host's and the MAC's deadlines +-1
+	for i := 0; i < nOff; i++ {
+		run(g.QuietAddressHistory())
+		r.Stat("class.quiet-address", 1)
+	}
 }
